@@ -1950,7 +1950,7 @@ static WBXMLError parse_attr_start(WBXMLParser         *parser,
          */
 
         wbxml_buffer_destroy(literal_str);
-        return WBXML_OK;
+        return ret;
     }
   
   
